@@ -13,6 +13,7 @@ import os
 import sys
 import time
 import traceback
+import warnings
 
 HERE = os.path.dirname(os.path.abspath(__file__))
 sys.path.insert(0, os.path.dirname(HERE))
@@ -20,6 +21,8 @@ sys.path.insert(0, os.path.dirname(HERE))
 sys.path[:] = [p for p in sys.path if not p.rstrip('/').startswith('/repo')]
 
 from sa import core, report  # noqa: E402
+
+warnings.filterwarnings('ignore')   # numpy overflow warnings raised while interpreting probe inputs are findings of the rules, not noise for the log
 
 
 def run_property(pid: str, tier: str, root: str, out_dir=None, overlay=None, quiet=False, base=None):
